@@ -415,6 +415,12 @@ def build(case: dict) -> dict:
             raise GenError("replacement equals the original byte")
         res["wire"] = wire[:pos] + bytes([rep]) + wire[pos + 1:]
         linecls = size_line_class(res["wire"], ent[1], wire[ent[1]:ent[2]])
+        nl = res["wire"].find(b"\n", ent[1])
+        tok = res["wire"][ent[1]:(nl if nl >= 0 else len(res["wire"]))].split(b";", 1)[0]
+        try:                                     # what int(token, 16) -- both parsers' reading -- makes of the size token
+            res["int16"] = int(tok, 16)
+        except ValueError:
+            res["int16"] = None
         res["bad_chunk"] = ent[3]
     if decode_on:
         indep, strict, out = stream_status(carried, case["coding"])
